@@ -268,6 +268,17 @@ func procsCase(c *Case, lean *LeanDriver) Verdict {
 // ---------------------------------------------------------------------------------------------
 // C16: select hints equal the reference engine's; the hinted range is sufficient
 
+// safeSexpr renders the plan, or "" when it holds something the protocol cannot express (e.g. an
+// unresolved `@ end()` inside an aggregation parameter, which PreprocessExpr leaves alone).
+func safeSexpr(e parser.Expr) (out string) {
+	defer func() {
+		if r := recover(); r != nil {
+			out = ""
+		}
+	}()
+	return Sexpr(e)
+}
+
 func hintKey(s SelectRecord) string {
 	g := append([]string(nil), s.Hints.Grouping...)
 	sort.Strings(g) // the grouping labels are a set
@@ -314,7 +325,7 @@ func hintsCase(c *Case, lean *LeanDriver) Verdict {
 	// reference although it evaluates them at the start only - not compared.
 	planStr := ""
 	if plan, err := c.Preprocess(); err == nil {
-		planStr = Sexpr(plan)
+		planStr = safeSexpr(plan)
 	}
 	if !strings.Contains(planStr, "(si (agg") && strings.Join(es, "\n") != strings.Join(ps, "\n") {
 		v.Other = fmt.Sprintf("selects differ: engine %v vs reference %v", es, ps)
